@@ -138,6 +138,16 @@ Section Top.
       rewrite (held_of_seq r s u Hseq). apply Hq.
   Qed.
 
+  (* what "serial" gives: whenever a thread takes a step, every other thread is outside its critical sections; so a
+     lookup's reads are never taken between two writes of one AddTriples section *)
+  Theorem serial_no_partial_section (s0 : state) C1 t C2 s1 :
+    serial begin_local rd_eff wr_eff send_val sends_ready s0 (C1 ++ t :: C2) ->
+    rn s0 C1 = Some s1 -> forall u, u <> t -> held_of s1 u = [].
+  Proof.
+    intros H Hr u Hu. apply (serial_app _ _ _ _ _ C1 (t :: C2) s0 s1 Hr) in H. destruct H as [_ H].
+    cbn in H. destruct H as [H _]. apply H. exact Hu.
+  Qed.
+
 End Top.
 
 (* ------------------------------------------------------------------ static statements *)
